@@ -284,6 +284,7 @@ fn judge(c: &Case, m: &Mat, observed: Result<BTreeMap<Vec<u8>, u8>, String>, ctx
     if c.pal.is_some() { cl.push("self_rc_planted"); }
     if extras > 0 { cl.push("collision_extras"); }
     if c.k >= 33 { cl.push("128bit"); }
+    if m.split * 2 == m.reads.len() && m.reads[..m.split] == m.reads[m.split..] { cl.push("both_files_identical(same_file_listed_twice_in_cli)"); }
     pass(near && qthr && !must.is_empty(), key_of(&(c.k, c.rc, c.min_count, c.min_qual, c.rule, &m.reads, m.split)), cl)
 }
 
@@ -324,7 +325,14 @@ fn check_inproc(c: &Case, ctx: &Ctx) -> Outcome {
 }
 
 fn check_cli(c: &Case, ctx: &Ctx) -> Outcome {
-    let m = materialise(c);
+    let mut m = materialise(c);
+    // a sixth of the cases: single-end reads listed as a pair (the same file in both columns, by the same path or
+    // through a symbolic link): the file is read twice, so every k-mer of it counts twice
+    let same_file = (c.k / 2 + c.min_count as usize + c.reads.len()) % 6 == 0;
+    if same_file {
+        let first = m.reads[..m.split].to_vec();
+        m.reads = [first.clone(), first].concat();
+    }
     let dir = ctx.case_dir();
     let (mut f1, mut f2) = write_reads(&dir, &m);
     // file naming: .fastq or .fq, plain or gzip-compressed (the content decides what a file is, not its name)
@@ -350,6 +358,15 @@ fn check_cli(c: &Case, ctx: &Ctx) -> Outcome {
             let gz = format!("{f}{}", [".gz", ".gzip", ".gz", ".bgz", ".GZ"][(c.k / 2 + c.min_count as usize + m.reads.len() / 3) % 5]);
             if m.reads.len() % 2 == 0 { cli::gzip(std::path::Path::new(f.as_str()), std::path::Path::new(&gz)) } else { cli::gzip_members(std::path::Path::new(f.as_str()), std::path::Path::new(&gz), 2) }
             *f = gz;
+        }
+    }
+    if same_file {
+        if c.reads.len() % 2 == 0 {
+            f2 = f1.clone();
+        } else {
+            let link = dir.join("mate_link.fastq");
+            std::os::unix::fs::symlink(&f1, &link).unwrap();
+            f2 = cli::p(&link);
         }
     }
     std::fs::write(dir.join("list.txt"), format!("smp\t{f1}\t{f2}\n")).unwrap();
